@@ -21,7 +21,9 @@ pub fn one_case(r: &mut Rng, silent: &Arc<Mutex<Option<String>>>, debug: bool) -
     let prefix: Vec<usize> = (0..200).map(|_| if r.below(100) < preempt { 1 + r.below(3) as usize } else { 0 }).collect();
 
     simk::configure(simk::SetupConfig { sq_start: r.next() as u32, cq_start: r.next() as u32, ..Default::default() });
-    let cfg = a10::Ring::config().with_submission_queue_size(8);
+    let cap: u32 = *r.pick(&[2, 2, 8]);
+    let prefill: u32 = *r.pick(&[0, 0, cap - 1, cap, cap]);
+    let cfg = a10::Ring::config().with_submission_queue_size(cap);
     let cfg = match mode {
         1 => cfg.single_issuer(),
         2 => cfg.with_kernel_thread(),
@@ -30,6 +32,17 @@ pub fn one_case(r: &mut Rng, silent: &Arc<Mutex<Option<String>>>, debug: bool) -
     let mut ring = cfg.build().expect("ring on the simulated kernel");
     let ring_fd = simk::with(|s| s.fd);
     let sq = ring.sq();
+    // Operations queued before the race (never submitted by anybody but enter, never completing):
+    // they make the submission queue (nearly) full when wake() wants to queue its message.
+    static DATA: &[u8] = b"x";
+    let mut held = Vec::new();
+    for k in 0..prefill {
+        let fd = Box::leak(Box::new(std::mem::ManuallyDrop::new(unsafe { a10::AsyncFd::from_raw_fd(1_000_000 + k as i32, sq.clone()) })));
+        let mut f: std::pin::Pin<Box<dyn std::future::Future<Output = std::io::Result<usize>> + Send>> = Box::pin(fd.write(DATA));
+        let w = crate::util::WakeLog::default().waker(0);
+        let _ = crate::util::poll_once(f.as_mut(), &w);
+        held.push(f);
+    }
     let total_wakes: usize = wakes_each.iter().sum();
     let returned = Arc::new(Mutex::new(0usize));
     let mut threads: Vec<Box<dyn FnOnce() + Send>> = Vec::new();
@@ -133,21 +146,23 @@ pub fn one_case(r: &mut Rng, silent: &Arc<Mutex<Option<String>>>, debug: bool) -
     obs.push(cq);
     obs.push(sqp);
     drop(sq);
+    std::mem::forget(held);
     simk::retire(ring_fd);
     let mode_s = ["Default", "SingleIssuer", "KernelThread"][mode as usize];
     let wk: Vec<String> = wakes_each.iter().map(|k| format!("{k}%nat")).collect();
     let coq = format!(
-        "{{| wk_mode := {mode_s}; wk_polls := {polls}%nat; wk_wakes := [{}]; wk_events := [{events}] |}}",
+        "{{| wk_mode := {mode_s}; wk_cap := {cap}%N; wk_prefill := {prefill}%N; wk_polls := {polls}%nat; wk_wakes := [{}]; wk_events := [{events}] |}}",
         wk.join("; ")
     );
     let json = format!(
-        "{{\"mode\":\"{mode_s}\",\"polls\":{polls},\"wakes_per_waker\":{:?},\"schedule\":[{jsched}]}}",
+        "{{\"mode\":\"{mode_s}\",\"sq_entries\":{cap},\"queued_before\":{prefill},\"polls\":{polls},\"wakes_per_waker\":{:?},\"schedule\":[{jsched}]}}",
         wakes_each
     );
     let preemptions = out.trace.iter().filter(|t| t.2).count();
     let blocked_then_woken = out.exec.iter().any(|e| e.1 == 998);
     let tags = vec![
         format!("mode:{mode_s}"),
+        format!("queue_full_at_start:{}", prefill == cap),
         format!("wakers:{n_wakers}"),
         format!("preemptions:{}", preemptions.min(6)),
         format!("poller_blocked_then_woken:{blocked_then_woken}"),
